@@ -53,6 +53,10 @@ type mxConn struct {
 	// MX/TLS security level established for this connection.
 	mxLevel  module.MXLevel
 	tlsLevel module.TLSLevel
+
+	// Opened for a message with the security override (TLS-Required: No),
+	// no policy was applied to it. Should not be reused for other messages.
+	unvetted bool
 }
 
 func (c *mxConn) Usable() bool {
@@ -220,6 +224,10 @@ func (rd *remoteDelivery) connectionForDomain(ctx context.Context, domain string
 			"local_addr", conn.LocalAddr(), "remote_addr", conn.RemoteAddr())
 	} else {
 		rd.Log.DebugMsg("opening new connection", "domain", domain, "cache_ignored", pooledConn != nil)
+		if pooledConn != nil {
+			// It was taken out of the pool, nobody else will close it.
+			pooledConn.Close()
+		}
 		conn, err = rd.newConn(ctx, domain)
 		if err != nil {
 			return nil, err
@@ -292,6 +300,7 @@ func (rd *remoteDelivery) newConn(ctx context.Context, domain string) (*mxConn, 
 		C:          smtpconn.New(),
 		domain:     domain,
 		lastUseAt:  time.Now(),
+		unvetted:   rd.msgMeta.TLSRequireOverride && rd.rt.allowSecOverride,
 	}
 
 	conn.Dialer = rd.rt.dialer
